@@ -108,6 +108,9 @@ def generate(rng, tier):
                       "name": rng.choice(["temp", "u", None]),
                       # metric weighting is an option of the same operations: it must not change a label
                       "weighted": (rng.random() < 0.25 and not faces),
+                      # the same operation reached through the Grid method, through Grid.apply_as_grid_ufunc,
+                      # through the module-level apply_as_grid_ufunc, or by calling the GridUFunc object
+                      "via": rng.choice(["method", "method", "grid_apply", "apply", "gridufunc"]),
                       "boundary": G.kwval(rng, axes, G.WORDS), "faces": faces})
     return cases
 
@@ -163,13 +166,39 @@ def run_impl(case):
         kw["metric_weighted"] = tuple(case["axes"])
     axis = case["axes"] if len(case["axes"]) > 1 else case["axes"][0]
     names = [c["name"] for c in case["dscoords"]]
+    def call(x):
+        via = case.get("via", "method")
+        if via == "method" or case["func"] == "cumsum" or len(case["axes"]) != 1 or case.get("weighted") \
+                or case.get("faces"):
+            return getattr(g, case["func"])(x, axis, **kw)
+        # one axis, a predefined stencil: the same grid ufunc by another door
+        from xgcm import gridops
+        from xgcm.grid_ufunc import apply_as_grid_ufunc
+        a = case["axes"][0]
+        ax = g.axes[a]
+        frm = [p for p, d in ax.coords.items() if d in x.dims][0]
+        to = (case["to"] or {}).get(a) or ax._default_shifts[frm]
+        gu = getattr(gridops, f"{case['func']}_{frm}_to_{to}")
+        opts = dict(axis=[(a,)], keep_coords=case["keep"])
+        if case["boundary"] is not None:
+            opts["boundary"] = case["boundary"]
+        sig = str(gu.signature)
+        more = dict(signature=sig, boundary_width=gu.boundary_width, **opts)
+        if via == "gridufunc":
+            out = gu(g, x, **opts)
+        elif via == "grid_apply":
+            out = g.apply_as_grid_ufunc(gu.ufunc, x, **more)
+        else:
+            out = apply_as_grid_ufunc(gu.ufunc, x, grid=g, **more)
+        # (a bare grid ufunc leaves the core dimension last; the labels are compared in the input's order)
+        new = ax.coords[to]
+        return out.transpose(*[new if d == ax.coords[frm] else d for d in x.dims])
     try:
         with warnings.catch_warnings():
             warnings.simplefilter("ignore")
-            r = getattr(g, case["func"])(da, axis, **kw)
+            r = call(da)
             # the values must not depend on the labels the input carried
-            r0 = getattr(g, case["func"])(da.reset_coords(drop=True).drop_vars(
-                [d for d in da.dims if d in da.coords]), axis, **kw)
+            r0 = call(da.reset_coords(drop=True).drop_vars([d for d in da.dims if d in da.coords]))
     except Exception as e:
         return {"err": type(e).__name__, "msg": str(e)[:200]}
     cs = []
@@ -242,3 +271,41 @@ def distribution(cases, obs):
         if "out" in o and not o.get("values_label_free", True):
             c["values-depend-on-labels"] += 1
     return dict(c)
+
+
+def extra_checks(rng, tier, notes):
+    """The name of the input is kept also for a vector component on a face-connected grid, whatever links the
+    faces have (across an axis-swapping link the halo comes from the PARTNER component, which has another
+    name)."""
+    import warnings
+    import numpy as np
+    from . import c05 as K5
+    out = []
+    n = 60 if tier == "quick" else 600
+    done = 0
+    for _ in range(n):
+        case = K5.gen_case(rng, vector=True)
+        if not case["vector"]:
+            continue
+        try:
+            ds, g, fc = K5.build(case)
+        except Exception:
+            continue
+        p = case["partner"]
+        da = K5.mkda(case["dims"], case["vals"]).rename("u_comp")
+        pa = K5.mkda(p["dims"], p["vals"]).rename("v_comp")
+        ax = case["vector"]
+        func = rng.choice(["interp", "diff", "min", "max"])
+        rec = {"conn": case["conn"], "func": func, "axis": ax, "dims": case["dims"], "labels": case.get("labels")}
+        try:
+            with warnings.catch_warnings():
+                warnings.simplefilter("ignore")
+                r = getattr(g, func)({ax: da}, ax, other_component={p["axis"]: pa}, boundary="fill")
+        except Exception:
+            continue            # refusals are C20's and C05's business
+        done += 1
+        if r.name != "u_comp":
+            out.append((rec, {"name": r.name}, f"{func} of the vector component 'u_comp' along {ax} on a face-connected "
+                                               f"grid returns an array named {r.name!r}"))
+    notes.append(f"{done} vector-component operations on face-connected grids: the result keeps the input's name")
+    return out
